@@ -104,6 +104,24 @@ func c17Read(c *Ctx, r *Report) {
 				if e.What == "invoke net.Conn.Read" {
 					reads = append(reads, e)
 				}
+				// anything else done to a limiter changes the token account: only giving back what a short read left
+				// unused of the batch that was paid for (batch - n) keeps "bytes read <= tokens taken"
+				if strings.Contains(e.What, "rate.Limiter).") && !strings.HasSuffix(e.What, ".WaitN") && !strings.HasSuffix(e.What, ".Burst") && !strings.HasSuffix(e.What, ".Limit") {
+					okRefund := false
+					if strings.HasSuffix(e.What, ".ReserveN") && len(e.Args) == 3 && len(reads) == 1 {
+						nDesc := "invoke.Read#"
+						amt := strings.NewReplacer(" ", "").Replace(e.Args[2])
+						for _, pat := range []string{"-(%d-%s", "(0-(%d-%s", "(%s"} {
+							_ = pat
+						}
+						if strings.HasPrefix(amt, fmt.Sprintf("-(%d-%s", batch, nDesc)) || strings.HasPrefix(amt, fmt.Sprintf("(0-(%d-%s", batch, nDesc)) || strings.HasPrefix(amt, fmt.Sprintf("(%s", nDesc)) && strings.HasSuffix(amt, fmt.Sprintf("-%d)", batch)) {
+							okRefund = true
+						}
+					}
+					if !okRefund {
+						p1 = append(p1, fmt.Sprintf("%s(%s) changes the token account by something other than the unused part of the batch paid for (batch %d minus the bytes read): more bytes than tokens can be pulled from the client", shortCallee(e.What), strings.Join(e.Args[1:], ", "), batch))
+					}
+				}
 			}
 			for _, w := range waits {
 				if w.Args[2] != fmt.Sprint(batch) {
